@@ -123,6 +123,30 @@ impl Property for C18 {
         let start = all[src.choice_big(all.len())];
         ctx.fingerprint(&(doc.clone(), start));
         ctx.rendering(|| format!("{} start=n{} ({})", doc.show(), start, sim.model.nodes[start].val.show()));
+        // (late draws) namespace declarations on elements that carry xml:space: namespace nodes
+        // come before attribute nodes in an element's child list
+        let carriers: Vec<usize> = all
+            .iter()
+            .copied()
+            .filter(|n| {
+                sim.model.is_element(*n)
+                    && sim.model.kids_cat(*n, 1).iter().any(|a| matches!(&sim.model.nodes[*a].val, MVal::Attribute(q, _) if q.ns == XML_NS && q.local == "space"))
+            })
+            .collect();
+        for c in carriers {
+            if src.ratio(1, 2) {
+                let op = crate::hist::Op::NsInsert(c, ["", "p"][src.choice(2)].to_string(), "urn:a".to_string());
+                let eff = crate::props::c05::apply_model(&mut sim.model, &op);
+                sim.grow();
+                let hs = sim.h.clone();
+                let hf = move |i: usize| hs[i].expect("unbound");
+                crate::hist::exec(&mut sim.xot, &op, &hf);
+                if let Err(e) = sim.compare(&eff) {
+                    return Verdict::Fail(format!("harness: declaring a namespace on an xml:space carrier: {}", e));
+                }
+                ctx.label("namespace_declaration_beside_xml_space");
+            }
+        }
         let to_go = removable(&sim.model, start);
         let ws_total = sim
             .model
